@@ -148,14 +148,14 @@ fn split_sweep(c: &mut Case) {
 
 pub fn run_all(ctx: &Ctx, evidence: Option<&PathBuf>) -> i32 {
     ctx.run_fixed("unknown-types", 256, unknown_types);
-    ctx.run_fixed("directed", 300, |c| {
+    ctx.run_fixed("directed", ctx.dn(300), |c| {
         let sc = gen_scenario(&mut c.rng, c.index % 5 == 0);
         run(c, &sc, RunOpts::default());
         if c.index == 3 {
             c.l.sample(sc.desc.clone());
         }
     });
-    ctx.run_fixed("split-sweep-directed", 12, split_sweep);
+    ctx.run_fixed("split-sweep-directed", ctx.dn(12), split_sweep);
     let n = ctx.size(40_000, 4_000_000);
     ctx.run_cases("replies", n, |c| {
         let big = ctx.scale == Scale::Full && c.rng.chance(1, 8);
